@@ -42,6 +42,7 @@ THEOREMS = [
     "C16_history_failures",
     "C16_nested",
     "C16_nested_table",
+    "C16_after_edit",
 ]
 RULE = (
     "real for-nodes made by for_node / Cls.for_node / node.iter / node.zip / as a workflow child fed through data "
@@ -679,6 +680,29 @@ def gen_cases(rng, tier):
             run.pop("exec", None)
         yield case
 
+    # 5k. hand edits of the generated sub-graph between runs: after a run one body copy is given another value on a
+    #     broadcast input and run by hand, then its collectors; then the loop runs again with UNCHANGED inputs
+    #     (must be the table of its own inputs, not a cache hit on the edited one), then with other lengths
+    for i in range(60 if quick else 600):
+        body = rng.choice(["B4", "B3", "MB"])
+        inputs = BODIES[body]["inputs"]
+        roles = [r for r in _splits(inputs) if "b" in r]
+        roles = rng.choice(roles)
+        iter_on = [k for k, r in zip(inputs, roles) if r == "i"]
+        zip_on = [k for k, r in zip(inputs, roles) if r == "z"]
+        bc = [k for k, r in zip(inputs, roles) if r == "b"]
+        cms = [c for c in _colmaps(body, iter_on, zip_on) if _columns_distinct(body, iter_on, zip_on, c)]
+        l0 = {k: rng.randint(1, 3) for k in iter_on + zip_on}
+        lens_seq = [l0, dict(l0), {k: rng.randint(1, 3) for k in iter_on + zip_on}]
+        case = _mk_case(rng, body, roles, rng.random() < 0.5, rng.choice(cms), True,
+                        rng.choice(["for_node", "cls"]), False, lens_seq)
+        case["runs"][1]["set"] = {}
+        n_rows = _n_rows(iter_on, zip_on, l0)
+        case["runs"][0]["edit"] = {"body": rng.randrange(n_rows), "input": rng.choice(bc), "value": "EDIT"}
+        if rng.random() < 0.3:
+            case["runs"][1]["edit"] = {"body": 0, "input": rng.choice(bc), "value": "EDIT2"}
+        yield case
+
     # 5b. body nodes on REAL executors (threads, processes): the completion order is whatever it is
     for i in range(24 if quick else 160):
         body = rng.choice(["B4", "B3"])
@@ -854,6 +878,13 @@ def corpus():
            "entry": "deep", "executor": True, "init": {"a": ["a0", "a1"], "b": ["b0", "b1", "b2"], "c": "C"},
            "runs": [{"set": {}, "how": "call", "sched": [3, 2, 1, 0]}, {"set": {"a": ["z"]}, "how": "call", "sched": [1, 0]},
                     {"set": {}, "how": "call", "sched": []}]}
+    # hand edit of a body copy + its collectors, then the unchanged inputs again (seeded C16-8), both forms
+    for form_df in (True, False):
+        yield {"kind": "for", "body": "B4", "iter": ["a", "b"], "zip": [], "df": form_df, "colmap": None,
+               "use_cache": True, "entry": "for_node", "executor": False,
+               "init": {"a": ["1", "2"], "b": ["10", "20"], "c": "kg"},
+               "runs": [{"set": {}, "how": "call", "edit": {"body": 2, "input": "c", "value": "lb"}},
+                        {"set": {}, "how": "call"}, {"set": {"a": ["3"], "c": "t"}, "how": "call"}]}
     # pickling: at rest, through a file, mid-run (history continues on the copy), after a failed run
     yield {"kind": "for", "body": "B4", "iter": ["a"], "zip": ["b"], "df": True, "colmap": {"o": "O"}, "use_cache": True,
            "entry": "for_node", "executor": True, "init": {"a": ["a0", "a1"], "b": ["b0", "b1", "b2"], "c": "C"},
@@ -1179,7 +1210,28 @@ def _run_for(case):
                         f.executor = self_exec
                     obs.append("rl")
                     obs.extend(_state_lines(case, f))
-            runs_out.append({"res": res, "outs": struct, "children": children, "n_children": n_children,
+            edited = False
+            ed = run.get("edit")
+            if ed and f is not None and wf is None and res == "ok" and not shortcut:
+                # the generated sub-graph is edited BY HAND: one body copy gets another value on a broadcast input and
+                # is run by hand, then the collectors downstream of it; the loop's outputs now hold the edited row
+                blabel = f"body_{ed['body']}"
+                if blabel in f.children and ed["input"] in f.children[blabel].inputs.labels:
+                    try:
+                        f.children[blabel].executor = None
+                        f.children[blabel].run(**{ed["input"]: ed["value"]})
+                        if case["df"]:
+                            f.children[f"row_collector_{ed['body']}"].run()
+                            f.children["dataframe"].run()
+                        else:
+                            for o in spec["outputs"]:
+                                f.children["column_collector_" + (case["colmap"] or {}).get(o, o)].run()
+                        edited = True
+                    except Exception:  # noqa: BLE001
+                        edited = False
+            stats["edit:" + str(edited)] = stats.get("edit:" + str(edited), 0) + (1 if ed else 0)
+            runs_out.append({"edited": edited, "res": res, "outs": struct, "children": children,
+                             "n_children": n_children,
                              "order": order, "consistent": consistent, "leftover_jobs": leftover,
                              "err": err_text, "calls": [list(c) for c in nodes_c16.CALLS[calls0:]],
                              "sched_points": idle.points})
@@ -1298,6 +1350,8 @@ def model_input(case, impl=None):
         lines.append(verb + " ".join(map(str, order)))
         if how_p in ("after", "file"):
             lines.append("reload")
+        if ro and ro.get("edited"):
+            lines.append("tamper")
     return lines
 
 
